@@ -70,7 +70,8 @@ def main(argv):
         workers = os.environ.get("VERIF_WORKERS")
         return orchestrator.campaign(prop, tier, seed, PROPS[prop], workers=int(workers) if workers else None,
                                      budget_s=float(budget) if budget else None, runs=int(runs) if runs else None,
-                                     write_evidence=not os.environ.get("HVSIM_NO_EVIDENCE"))
+                                     write_evidence=not os.environ.get("HVSIM_NO_EVIDENCE"),
+                                     corpus=not os.environ.get("HVSIM_NO_CORPUS"))
     print(__doc__)
     return 2
 
